@@ -34,6 +34,9 @@ func ErrorByName(n string) error {
 
 var ErrorNames = []string{"unexpected-eof", "closed-pipe", "reset", "custom", "wrapped-eof"}
 
+// ReadErrorNames adds a clean io.EOF in the middle of a record: the stream simply ends.
+var ReadErrorNames = []string{"unexpected-eof", "closed-pipe", "reset", "custom", "wrapped-eof", "eof"}
+
 // WriteErrorNames adds io.EOF itself: for a writer it is just another error value.
 var WriteErrorNames = []string{"unexpected-eof", "closed-pipe", "reset", "custom", "wrapped-eof", "eof"}
 
